@@ -7,6 +7,7 @@ import (
 
 	"github.com/enfein/mieru/v3/pkg/appctl/appctlpb"
 	"github.com/enfein/mieru/v3/pkg/cipher"
+	"github.com/enfein/mieru/v3/pkg/protocol/serveruser"
 	"github.com/enfein/mieru/v3/pkg/replay"
 	"github.com/enfein/mieru/v3/pkg/stderror"
 )
@@ -109,4 +110,58 @@ func vStubReadFullLen(r io.Reader, buf []byte) (int, error) {
 		return 0, io.EOF
 	}
 	return rem, io.ErrUnexpectedEOF
+}
+
+// ---- H5.2 / H6.2 / H10.3: one datagram at a UDP server without sessions ----
+//
+// The datagram is arbitrary bytes of length 0, 71, 72 or 75.  User discovery is
+// replaced by its outcome: it fails (the sender knows no registered
+// credential), or it succeeds for a user whose cipher then decrypts whatever it
+// is given into ARBITRARY metadata / payload (a hostile registered user).  The
+// replay cache answers arbitrarily.
+var vDiscoveryOK bool
+
+func vStubNewSessionDiscovery(u *PacketUnderlay, encryptedMeta []byte, source serveruser.Source) (cipher.BlockCipher, []byte, serveruser.Authentication, error) {
+	if !vDiscoveryOK {
+		return nil, nil, serveruser.Authentication{}, vTimeoutErr{}
+	}
+	m := vNondetBytes("oracle.meta", 32)
+	vAssume(m[0] != 10 && m[0] != 11)
+	return &vOracleCipher{user: "mallory"}, m, serveruser.VNewAuthentication("mallory"), nil
+}
+
+func vH_C05_packet_one_datagram() {
+	for _, n := range [...]int{0, 71, 72, 75} {
+		pc := &vFakePacketConn{in: [][]byte{vNondetBytes("datagram", n)}}
+		u := &PacketUnderlay{baseUnderlay: *newBaseUnderlay(false, 1400, nil), conn: pc}
+		vDiscoveryOK = vNondetBool("discovery.ok")
+		vDupSeen, vDupAnswer = false, false
+		seg, addr, err := u.readOneSegment()
+		vAssert(err == nil, "a bad datagram is never an error of the underlay (it is dropped)")
+		vAssert(pc.writes == 0, "reading a datagram never sends one")
+		vAssert(u.SessionCount() == 0, "reading a datagram creates no session")
+		if !vDiscoveryOK || n < 72 {
+			vAssert(seg == nil && addr == nil, "no registered credential (or a datagram shorter than a header) => nothing is passed on")
+		}
+		if vDupSeen && vDupAnswer {
+			vAssert(seg == nil, "a datagram the replay cache reports (same bytes from another address) is dropped even though it decrypts")
+		}
+		if seg != nil {
+			p := uint8(seg.metadata.Protocol())
+			vAssert(vRefClientSends(p), "a new-session datagram is passed on only if a client may send its type (the server's own output reflected back is dropped)")
+			if seg.serverUserAuthentication.Valid() {
+				sid, _ := seg.SessionID()
+				vAssert(p == 2 && sid != 0, "a pending authentication is attached only to an open-session request with a non-zero id")
+			}
+			vAssert(seg.block != nil, "the authenticating cipher travels with the segment")
+		}
+	}
+}
+
+var vDupSeen, vDupAnswer bool
+
+func vStubIsDuplicateRecord(c *replay.ReplayCache, data []byte, tag string) bool {
+	vDupSeen = true
+	vDupAnswer = vNondetBool("replay.dup")
+	return vDupAnswer
 }
